@@ -24,6 +24,9 @@ J_newreq(e) ==
          IF ~LegalReq(r) THEN "accepted-illegal-request"
          ELSE IF e.bytes # ReqADU(e.framing, e.tid, r) THEN "bytes-differ-from-specified-ADU"
          ELSE IF Len(e.bytes) > MaxADU(e.framing) THEN "adu-too-long"
+         ELSE IF e.bytes2 # e.bytes THEN "second-encoding-of-the-same-request-differs"
+         ELSE IF e.bytes3 # e.bytes THEN "encoding-changed-when-the-caller-reused-its-argument-slices"
+         ELSE IF e.prevNow # e.prevThen THEN "encoding-of-an-earlier-request-changed-after-a-later-one-was-built"
          ELSE "ok"
 
 ----------------------------------------------------------------------------
@@ -93,6 +96,8 @@ J_parsereq(e) ==
     IF e.outcome = "panic" THEN "panic"
     ELSE IF e.outcome = "noentry" THEN "harness-unknown-entry"
     ELSE IF e.outcome = "err" /\ ~e.nilOnErr THEN "non-nil-value-with-error"
+    \* C03, emitter clause: whatever request the parser accepted, what it emits again ends with the CRC of its bytes
+    ELSE IF e.outcome = "ok" /\ e.framing = "rtu" /\ e.reenc # <<>> /\ ~CRCConsistent(e.reenc) THEN "emitted-rtu-frame-does-not-end-with-the-crc-of-its-bytes"
     ELSE LET d == DecodeByFraming(e.framing, e.frame) IN
          IF ~d.ok THEN "ok"
          ELSE IF e.entry \notin ReqEntries(FrOf(e.framing), d.r.fc) THEN "ok"
@@ -179,14 +184,15 @@ J_classify(e) ==
          ELSE IF e.n # cl.n THEN "expected-length-differs-from-frame-length"
          ELSE IF ~DispatcherAgrees(e) THEN "accepted-but-dispatcher-fails-without-exception-reply"
          ELSE "ok"
-    ELSE IF e.kind = "ok" THEN
-         IF e.n # 6 + MBAPLen(e.frame) THEN "expected-length-not-6-plus-length-field"
-         ELSE IF ~DispatcherAgrees(e) THEN "accepted-but-dispatcher-fails-without-exception-reply"
-         ELSE "ok"
+    \* (this clause first: an unsupported function code that the classifier ACCEPTS must not be judged as an accepted frame)
     ELSE IF cl.kind = "unsupported" /\ ~e.allow /\ e.frame[8] \in 1..127 THEN
          IF e.kind # "unsupported" THEN (IF Dev_C18_F1(e) THEN "known:C18-F1" ELSE "unsupported-function-not-classified-as-such")
          ELSE IF e.excBytes # cl.exc THEN "illegal-function-exception-does-not-match-request"
          ELSE IF e.n # cl.n THEN "expected-length-not-6-plus-length-field"
+         ELSE "ok"
+    ELSE IF e.kind = "ok" THEN
+         IF e.n # 6 + MBAPLen(e.frame) THEN "expected-length-not-6-plus-length-field"
+         ELSE IF ~DispatcherAgrees(e) THEN "accepted-but-dispatcher-fails-without-exception-reply"
          ELSE "ok"
     ELSE "ok"
 
